@@ -1,6 +1,6 @@
 //! C04 — every fixed-position field decodes to the transmitted value.
 
-use crate::adapter::{Config, STD};
+use crate::adapter::{configs, Config, STD};
 use crate::engine::{Ctx, Input, Rec, Verdict};
 use crate::gen::payload::{field_sweep, payload_inputs, LenMode};
 use crate::props::payload::check_input;
@@ -54,7 +54,10 @@ pub fn run(ctx: &mut Ctx) {
                 if ctx.sub_failed("field-sweep") {
                     break;
                 }
-                ctx.sweep_case("field-sweep", &STD, &Input::Payload { bytes: b }, check);
+                let input = Input::Payload { bytes: b };
+                for cfg in configs() {
+                    ctx.sweep_case("field-sweep", cfg, &input, check);
+                }
             }
         }
     }
@@ -65,4 +68,7 @@ pub fn run(ctx: &mut Ctx) {
     ctx.run_proptest("random-assignments", &STD, n, payload_inputs(SUPPORTED.to_vec(), LenMode::Standard, Prop::C04, 8, 0.10), check);
     let n = ctx.tier.pick(10_000, 400_000);
     ctx.run_proptest("random-assignments-any-length", &STD, n, payload_inputs(SUPPORTED.to_vec(), LenMode::Any, Prop::C04, 5, 0.10), check);
+    for cfg in configs().into_iter().skip(1) {
+        ctx.run_proptest("random-assignments", cfg, n / 2, payload_inputs(SUPPORTED.to_vec(), LenMode::Standard, Prop::C04, 8, 0.10), check);
+    }
 }
